@@ -63,6 +63,7 @@ func (ck *PatchChecker) Check(pkg *Package) {
 			if ck.llex.SkipRegexp(`^---[\t ]([^\t ]+)(.*)$`) {
 				ck.checkBeginDiff(line, len(patchedFiles))
 				line.Warnf("Use unified diffs (diff -u) for patches.")
+				SaveAutofixChanges(ck.lines)
 				return
 			}
 
